@@ -205,8 +205,25 @@ func (t *Tables) Scan(start int, text string) (size, action int) {
 			return start, actionStart - state
 		}
 	}
-	state = t.Dfa[state*t.NumSymbols] // end-of-input transition
-	if actionStart == state && size > 0 {
+	// End-of-input transitions. Rules that consume {eoi} need more than one of them to reach
+	// their action, and may pass through a checkpoint on the way.
+	checkpoint := size > 0
+	for n := len(t.Dfa) / t.NumSymbols; n >= 0; n-- {
+		state = t.Dfa[state*t.NumSymbols]
+		if state <= actionStart {
+			break // accept or error
+		}
+		if state < 0 {
+			bt := t.Backtrack[-1-state]
+			action, state = bt.Action, bt.NextState
+			size, checkpoint = len(text), true
+		}
+	}
+	if state >= 0 {
+		// A rule like /a{eoi}*/ consumes end-of-input markers forever.
+		state = actionStart
+	}
+	if actionStart == state && checkpoint {
 		// Backtrack.
 		return
 	}
